@@ -208,16 +208,17 @@ func writeListOrArray(e *Encoder, d *decodeState, ifWriteTag bool, tagName strin
 		if d.opcode != scanListValue && d.opcode != scanEndValue { // TAG_List<TAG_String>
 			panic(phasePanicMsg)
 		}
-		var tagType byte
+		tagType = TagList
+		var elemType byte
 		for {
 			t, v, err := parseLiteral(literal)
 			if err != nil {
 				return tagType, err
 			}
-			if tagType == 0 {
-				tagType = t
+			if elemType == 0 {
+				elemType = t
 			}
-			if t != tagType {
+			if t != elemType {
 				return TagList, d.error("different TagType in List")
 			}
 			err = writeLiteralPayload(e2, v)
@@ -247,7 +248,7 @@ func writeListOrArray(e *Encoder, d *decodeState, ifWriteTag bool, tagName strin
 			literal = d.data[start:d.readIndex()]
 		}
 
-		if err := e.writeListHeader(tagType, count); err != nil {
+		if err := e.writeListHeader(elemType, count); err != nil {
 			return tagType, err
 		}
 		if _, err := e.w.Write(buf.Bytes()); err != nil {
@@ -260,6 +261,7 @@ func writeListOrArray(e *Encoder, d *decodeState, ifWriteTag bool, tagName strin
 				return tagType, err
 			}
 		}
+		tagType = TagList
 		var elemType byte
 		for {
 			if d.opcode == scanSkipSpace {
@@ -268,9 +270,15 @@ func writeListOrArray(e *Encoder, d *decodeState, ifWriteTag bool, tagName strin
 			if d.opcode != scanBeginList {
 				return TagList, d.error("different TagType in List")
 			}
-			elemType, err = writeListOrArray(e2, d, false, "")
+			var t byte
+			t, err = writeListOrArray(e2, d, false, "")
 			if err != nil {
 				return tagType, err
+			}
+			if count == 0 {
+				elemType = t
+			} else if t != elemType {
+				return TagList, d.error("different TagType in List")
 			}
 			count++
 			if d.opcode == scanSkipSpace {
@@ -303,6 +311,7 @@ func writeListOrArray(e *Encoder, d *decodeState, ifWriteTag bool, tagName strin
 				return tagType, err
 			}
 		}
+		tagType = TagList
 		for {
 			if d.opcode == scanSkipSpace {
 				d.scanWhile(scanSkipSpace)
@@ -342,6 +351,10 @@ func writeListOrArray(e *Encoder, d *decodeState, ifWriteTag bool, tagName strin
 		if _, err = e.w.Write(buf.Bytes()); err != nil {
 			return
 		}
+	case scanError:
+		return TagList, d.error(d.scan.errContext)
+	default:
+		return TagList, d.error("unexpected token in TAG_List")
 	}
 	d.scanNext()
 	return
